@@ -519,6 +519,35 @@ def zclass(v):
     return ">=2^32"
 
 
+def mixed_order_optsets(rng, prog, n):
+    """option lists that MIX patterns with and without @module in every order: whether a library is looked at must
+    depend on the presence of an @module pattern, not on where it stands (first, middle, last)"""
+    libmod = os.path.splitext(prog["lib"]["file"])[0]          # e.g. libc14e2e / prog_plugin
+    libfns = [f["name"] for f in prog["lib"]["funcs"]]
+    exefns = [f["name"] for f in prog["funcs"]] + ["main"]
+    sets = []
+    shapes = ["lib-first", "lib-last", "lib-middle", "all-lib-then-U-exe", "exe-U-last"]
+    for i in range(n):
+        shape = shapes[i % len(shapes)]
+        ptype = rng.choice([2, 2, 3])
+        anyp = "." if ptype == 2 else "*"
+        lib_p = ("P", rng.choice([anyp, rng.choice(libfns), "lib_*" if ptype == 3 else "^lib_"]) + "@" + libmod)
+        exe_p = ("P", rng.choice(exefns))
+        exe_u = ("U", rng.choice(exefns))
+        if shape == "lib-first":
+            opts = [lib_p, exe_p]
+        elif shape == "lib-last":
+            opts = [exe_p, lib_p]
+        elif shape == "lib-middle":
+            opts = [exe_p, lib_p, ("P", rng.choice(exefns))]
+        elif shape == "all-lib-then-U-exe":
+            opts = [("P", anyp + "@" + libmod), ("P", anyp), exe_u]
+        else:
+            opts = [("P", anyp), lib_p, ("U", rng.choice(libfns) + "@" + libmod), exe_u]
+        sets.append((opts, ptype, None))
+    return sets
+
+
 def verdict(ctx, cases, res, witness_idx=None):
     if res is None:
         return
@@ -585,7 +614,8 @@ def run(ctx, objdir, h):
                 bad = bad or (tend + 4095) // 4096 * 4096 - 16 < tend
             if bad:
                 continue
-            for si, (opts, ptype, minsz) in enumerate(gen_optsets(rng, lprog, ctx.n(3, 10))):
+            optsets = gen_optsets(rng, lprog, ctx.n(2, 10)) + mixed_order_optsets(rng, lprog, ctx.n(3, 8))
+            for si, (opts, ptype, minsz) in enumerate(optsets):
                 res = run_case(ctx, objdir, lprog, opts, ptype, minsz, "%d" % si)
                 for module in ("exe", "lib"):
                     c = make_case(ctx, h, lprog, opts, ptype, minsz, res, module=module)
